@@ -37,6 +37,12 @@ func hasArith(e ast.Expr) bool {
 				found = true
 			}
 		}
+		// min(a, b) / max(a, b) are arithmetic too (the spec's caps and floors)
+		if call, ok := n.(*ast.CallExpr); ok {
+			if id, ok := call.Fun.(*ast.Ident); ok && (id.Name == "min" || id.Name == "max") && len(call.Args) >= 2 {
+				found = true
+			}
+		}
 		return !found
 	})
 	return found
@@ -495,7 +501,7 @@ func formulasIn(pk *packages.Package, fd *ast.FuncDecl, fn string, subst map[typ
 				return
 			}
 		}
-		if rhs != nil && !hasArith(rhs) && !callWithConstArg(info, rhs) {
+		if rhs != nil && !hasArith(rhs) && !callWithConstArg(info, rhs) && !inlinedArith(info, rhs) {
 			// a bare value is a formula only for accumulators (x += v)
 			if tok == token.ASSIGN {
 				return
@@ -689,7 +695,8 @@ var formulaHelpers = map[string][]string{}
 
 func collectFormulas(p *Prog) map[string][]formulaSite {
 	polyInline = inlinableFuncs(p)
-	defer func() { polyInline = nil }()
+	polyInlineNamed = true
+	defer func() { polyInline, polyInlineNamed = nil, false }()
 	out := map[string][]formulaSite{}
 	formulaDecls = map[string]cmpDecl{}
 	formulaHelpers = map[string][]string{}
@@ -933,6 +940,8 @@ func ruleFormulaSpec(c *Ctx) {
 		}
 		switch {
 		case same(f.named, e.named, f.via):
+			// (one-line helpers of the package are read in place in every form: a helper whose body changed changes
+			// the formulas of its callers)
 			return "named", nil
 		case same(f.res, e.res, f.via):
 			return "res", nil
@@ -1052,6 +1061,8 @@ func ruleFormulaSpec(c *Ctx) {
 				if usedSite[si] {
 					continue
 				}
+				// compared in resolved form (locals and one-line helpers read through): the spelling alone can hide a
+				// helper whose body changed
 				cands := []string{sv.named, sv.res}
 				if sv.target != e.target {
 					cands = append(cands, reduceBy(sv.named, e.target), reduceBy(sv.res, e.target))
@@ -1114,6 +1125,19 @@ func ruleFormulaSpec(c *Ctx) {
 			verdicts[i] = verdict{"ok", "inlined", verdicts[i].pos, fmt.Sprintf("%s is no longer a local of %s; the %d reviewed formula(s) that used it are found with it spelled out: %s", e.target, e.fn, users, e.spec)}
 		}
 	}
+	// a reviewed assignment that is gone while its target is still a variable of the function was REMOVED (the value the
+	// variable then carries on is the one from before: a stale count, an unrounded balance), not moved or renamed
+	for i, e := range formulaTable {
+		if verdicts[i].status != "missing" || strings.ContainsAny(e.target, ":#.[") {
+			continue
+		}
+		if _, ok := all[e.fn]; !ok {
+			continue
+		}
+		if sw := stillDeclared(e.fn, []string{e.target}, nil); len(sw) > 0 {
+			verdicts[i] = verdict{"bad", "", verdicts[i].pos, fmt.Sprintf("%s no longer assigns {%s} to %s, although %s is still a variable of the function and nothing else carries that formula: the update was dropped — spec: %s", e.fn, strings.Join(e.named, " ; "), e.target, e.target, e.spec)}
+		}
+	}
 	for i, e := range formulaTable {
 		key := e.fn + ":" + e.target
 		v := verdicts[i]
@@ -1169,4 +1193,22 @@ func assumptionsAt(info *types.Info, parents map[ast.Node]ast.Node, n ast.Node, 
 		}
 	}
 	return out
+}
+
+// inlinedArith: a call of a same-package function that only returns an arithmetic expression (read in place by the
+// resolved forms): `limit := capOf(spec, x)` is then the formula capOf computes.
+func inlinedArith(info *types.Info, e ast.Expr) bool {
+	call, ok := ast.Unparen(e).(*ast.CallExpr)
+	if !ok || polyInline == nil {
+		return false
+	}
+	f := calleeFunc(info, call)
+	if f == nil {
+		return false
+	}
+	hd, ok := polyInline[f]
+	if !ok || hd.info != info {
+		return false
+	}
+	return hasArith(hd.fd.Body.List[0].(*ast.ReturnStmt).Results[0])
 }
